@@ -80,7 +80,7 @@ Proof.
 Qed.
 
 (* ---------- the reloaded document is in the domain again ---------- *)
-Lemma savable_reloaded d : savable d -> savable (reloaded_table d).
+Lemma savable_reloaded d : savable_core d -> savable_core (reloaded_table d).
 Proof.
   intro S. pose proof (sv_max_id d S) as Hm. pose proof (sv_objects d S) as Ho.
   assert (Hlast : last_number (d_objects d) <= d_max_id d).
@@ -126,9 +126,9 @@ Qed.
 
 (* ---------- the second cycle ---------- *)
 Theorem load_save_table_again d :
-  savable d -> known_deep d = false -> small_file XTable d -> small_file XTable (reloaded_table d) ->
-  load (save_table d) = LOk (reloaded_table d) XTTable /\
-  load (save_table (reloaded_table d)) = LOk (reloaded_table (reloaded_table d)) XTTable /\
+  savable_core d -> known_deep d = false -> small_file_core XTable d -> small_file_core XTable (reloaded_table d) ->
+  load (so_bytes (save_core XTable d)) = LOk (reloaded_table d) XTTable /\
+  load (so_bytes (save_core XTable (reloaded_table d))) = LOk (reloaded_table (reloaded_table d)) XTTable /\
   d_version (reloaded_table (reloaded_table d)) = d_version d /\
   d_objects (reloaded_table (reloaded_table d)) = d_objects (reloaded_table d) /\
   d_max_id (reloaded_table (reloaded_table d)) = d_max_id (reloaded_table d).
